@@ -9,6 +9,9 @@ import CookModel.Lemmas.RecipeSimStatic
 import CookModel.Lemmas.RecipeSimBlank
 import CookModel.Lemmas.TrailInst
 import CookModel.Lemmas.AuditC17
+import CookModel.Lemmas.LooseComp
+import CookModel.Lemmas.LooseStep
+import CookModel.Lemmas.LooseFront
 import CookModel.Lemmas.TableFacts
 /-
   C17  Line endings, comments and blank space do not change the recipe.
@@ -1489,5 +1492,559 @@ theorem C17_trailing_spaces_blocks_real (u a sp x : List Char) (L : List (List T
 theorem C17_clean_line_end_lf_real (o : Nat) (a : List Char) (h : CleanEndLF (lexFrom realCharSpec o a)) :
     EndOK realCharSpec (some '\n') (lexFrom realCharSpec o a) :=
   C17_clean_line_end_lf (cs := realCharSpec) (hcs := C17_crlfSpec_real) o a h
+
+-- ===== w5c17body =====
+/-! ## Wave 5 (notes/audit-C17.md, "wave 5"): filler INSIDE component bodies, paragraphs, servings,
+    blank / comment-only lines around the front matter.
+
+  New vocabulary (all of it specification side, no model function added):
+  `TextLoose cs t' t` — equal `text_trimmed()` and equal `is_text_empty()` (the number of fragments is
+  free); `EvLoose cs` — events with the same content as far as the analysis reads it (component
+  names, aliases, notes, units, section names, metadata keys by `text_trimmed()`, metadata values by
+  the outer `trim()`, step / paragraph text by `text()`, equal values / modifiers / reference data,
+  diagnostics of the same kind); `FillerIn lF l`, `CompFiller cF c`, `TimerFiller`, `QtyFiller` — a
+  text leaf / component / timer / quantity of the round-trip grammar with block comments and blanks
+  inserted behind a blank of its name, alias, note, unit; `ParaIns` — filler inserted in a line of a
+  `>` paragraph; `StrLine` — a complete source line. -/
+
+/-- **`is_text_empty` of an assembled run** is decided by the characters its tokens contribute to
+    the fragments (`bl17Raw`: a comment nothing, an escape its tail, a newline token its own
+    characters, any other token its text): the run is empty iff all of them are Unicode white space. -/
+theorem C17_is_text_empty_by_chars (cs : CharSpec) (off : Nat) (ts : List Tok) :
+    (buildText off ts).isTextEmpty cs = (ts.flatMap bl17Raw).all cs.uws := bl17_buildText_isTextEmpty cs off ts
+
+/-- **Filler behind a blank inside a trimmed run, `TextLoose`.**  Completes
+    `C17_filler_after_blank_trimmed`: not only `text_trimmed()` but also `is_text_empty()` is unchanged,
+    so every emptiness diagnostic of the component parsers (`empty name`, `empty alias`, `empty unit`, …)
+    is raised on both sides or on neither. -/
+theorem C17_filler_after_blank_loose (cs : CharSpec) (hsp : cs.uws ' ' = true) (off off' : Nat)
+    (xs F ys : List Tok) (w : Tok) (hw : w.kind = .ws) (hwt : w.text ≠ []) (hwb : ∀ c ∈ w.text, c = ' ')
+    (hF : ∀ t ∈ F, A17Filler t) :
+    TextLoose cs (buildText off' (xs ++ [w] ++ F ++ ys)) (buildText off (xs ++ [w] ++ ys)) :=
+  bl17_loose_after_blank cs hsp off off' xs F ys w hw hwt hwb hF
+
+/-- the same in front of a line break of the run (trailing comment / blanks on a line that ends
+    inside a name, a quantity, a note) … -/
+theorem C17_filler_before_newline_loose (cs : CharSpec) (hsp : cs.uws ' ' = true) (off off' : Nat)
+    (xs F ys : List Tok) (nl : Tok) (hn : nl.kind = .newline) (hne : nl.text ≠ []) (hF : ∀ t ∈ F, A17Filler t) :
+    TextLoose cs (buildText off' (xs ++ F ++ [nl] ++ ys)) (buildText off (xs ++ [nl] ++ ys)) :=
+  bl17_loose_before_newline cs hsp off off' xs F ys nl hn hne hF
+
+/-- … and at the end of the run (metadata value, section name, last line of a note) -/
+theorem C17_filler_at_end_loose (cs : CharSpec) (hsp : cs.uws ' ' = true) (off off' : Nat)
+    (xs F : List Tok) (hF : ∀ t ∈ F, A17Filler t) : TextLoose cs (buildText off' (xs ++ F)) (buildText off xs) :=
+  bl17_loose_at_end cs hsp off off' xs F hF
+
+/-- `EvLoose` is implied by `EvSim` (so every CRLF / blank-line / offset result is also a loose one) -/
+theorem C17_evSim_implies_evLoose {α : Type} [Arith α] (cs : CharSpec) (ev' ev : Ev α) (h : EvSim cs.uws ev' ev) :
+    EvLoose cs ev' ev := h.loose
+
+/-- what `EvLoose` says about two ingredient events: everything the analysis reads except spans -/
+theorem C17_evLoose_ingredient {α : Type} [Arith α] (cs : CharSpec) (i' i : Loc (PIngredient α))
+    (h : EvLoose cs (.ingredient i') (.ingredient i)) :
+    i'.val.modifiers.val = i.val.modifiers.val ∧ i'.val.name.trimmed cs = i.val.name.trimmed cs ∧
+    i'.val.alias.map (·.trimmed cs) = i.val.alias.map (·.trimmed cs) ∧
+    i'.val.note.map (·.trimmed cs) = i.val.note.map (·.trimmed cs) ∧
+    i'.val.inter.map (·.val) = i.val.inter.map (·.val) ∧
+    i'.val.quantity.map (fun q => (q.val.value.value.val, q.val.value.lock.isSome, q.val.unit.map (·.trimmed cs))) =
+      i.val.quantity.map (fun q => (q.val.value.value.val, q.val.value.lock.isSome, q.val.unit.map (·.trimmed cs))) := by
+  have h2 : PIngredientLoose cs i'.val i.val := h
+  obtain ⟨h1, hi, h3, h4, h5, h6⟩ := h2
+  refine ⟨h1, h3, bl17_optTrimmed_eq h4, bl17_optTrimmed_eq h6, ?_, ?_⟩
+  · rcases hi.elim with ⟨e', e⟩ | ⟨x', x, e', e, hx⟩
+    · rw [e', e]
+    · rw [e', e]; simp only [Option.map_some]; exact congrArg some hx
+  · rcases h5.elim with ⟨e', e⟩ | ⟨x', x, e', e, hx⟩
+    · rw [e', e]
+    · rw [e', e]
+      obtain ⟨⟨hv, hl⟩, hunit⟩ := hx
+      simp only [Option.map_some, hv, hl, bl17_optTrimmed_eq hunit]
+
+/-- **One event, loose.**  `process_event` on `EvLoose`-related events takes `ColSim`-related collector
+    states to `ColSim`-related states (EQUAL sections, items, tables, metadata map, servings; same
+    diagnostics up to label positions), for any two source texts: the collector reads component names
+    through `text_trimmed()` only, never through the fragments.  Exception as for `EvSim`: a component
+    event that meets an open text buffer of define mode `text`. -/
+theorem C17_analysis_event_step_loose {α : Type} [Arith α] (env : Env) (input' input : Str) (ev' ev : Ev α)
+    (h : EvLoose env.cs ev' ev) (c' c : Col α) (hc : ColSim env.cs.uws c' c) (hns : ¬ TextModeSliceAt ev c) :
+    ColSim env.cs.uws (processEvent env input' ev' c').2 (processEvent env input ev c).2 :=
+  processEvent_loose env input' input h hc hns
+
+/-- **The analysis respects `EvLoose`.**  `parse_events` maps `EvLoose`-related event lists to
+    `ResSim`-related results (the same recipe, the same validity, diagnostics of the same kinds in the
+    same order), under the one-sided text-mode proviso of `C17_analysis_respects_evsim`. -/
+theorem C17_analysis_respects_evloose {α : Type} [Arith α] (env : Env) (input' input : Str) (evs' evs : List (Ev α))
+    (h : LRel (EvLoose env.cs) evs' evs) (hf : TextModeFree env input evs {}) :
+    ResSim env.cs.uws (parseEvents env input' evs') (parseEvents env input evs) :=
+  parseEvents_loose env input' input h hf
+
+/-- **From loose events to the same recipe.**  Two sources whose `PullParser` events are
+    `EvLoose`-related parse to the same recipe in the sense of the property (`SameRecipe`), with the
+    MODES extension off (no proviso). -/
+theorem C17_events_loose_same_recipe_modes_off {α : Type} [Arith α] (ws : Char → Bool) (env : Env)
+    (hm : env.ext.has Gen.EXT_MODES = false) (s' s : List Char)
+    (h : LRel (EvLoose env.cs) (pullEvents (α := α) env.cs env.ext s').1.toList (pullEvents (α := α) env.cs env.ext s).1.toList) :
+    SameRecipe ws (parseRecipe (α := α) env s') (parseRecipe (α := α) env s) :=
+  a17_resSim_same ws (bl17_parseRecipe_loose env s' s h (pullEvents_textModeFree env hm s))
+
+/-- **Ingredient with filler inside its body (name, alias, note, unit), parser level.**
+    `c` is an ingredient of the round-trip grammar (`AComp.wf`: the side conditions of C01), `cF` the
+    same ingredient with block comments / blank whitespace tokens inserted behind a blank of its name,
+    alias, note or unit (`CompFiller`).  In any two parser states (same character table and
+    extensions; the component is anywhere in the block: `A' … rest'` / `A … rest` are arbitrary, with
+    arbitrary offsets) `ingredient()` succeeds on both spellings, consumes exactly the component, and
+    the two `Ingredient` events are `EvLoose`-related: the same name, alias, note, unit after
+    `text_trimmed()`, the same value, lock, modifiers.  The wrong implementation "a block comment
+    ends the name / glues two words of it" is excluded (`compBody` delimits the same runs, and the
+    comment shows nothing between two blanks that `text_trimmed` collapses).
+    NOT covered: a comment directly in front of the unit of an ADVANCED_UNITS quantity written without
+    `%` (`{1 [- c -]kg}`) — there the real parser changes its reading (finding O5, repaired on branch
+    w5advfix); `QtyFiller` only inserts into units written with `%`.
+    The recipe level (step loop, block, document, analysis) is `C17_filler_in_component_bodies_same_recipe`. -/
+theorem C17_ingredient_filler_in_body {α : Type} [Arith α] (cF c : AComp) (hF : CompFiller cF c) (p' p : CPad) (s' s : BP α)
+    (hcs : s'.cs = s.cs) (hext : s'.ext = s.ext) (hsp : s.cs.uws ' ' = true)
+    (hwf : c.wf s.cs s.ext = true) (hp' : p'.ok s.cs = true) (hp : p.ok s.cs = true)
+    (A' ts' rest' A ts rest : List Tok) (hs' : Spells ts' (spellIngredient cF p')) (hs : Spells ts (spellIngredient c p))
+    (ht' : s'.toks = A' ++ (ts' ++ rest')) (ht : s.toks = A ++ (ts ++ rest))
+    (hc' : s'.cur = A'.length) (hc : s.cur = A.length) (hrest' : restOK c rest' = true) (hrest : restOK c rest = true)
+    (hrun' : RunAt (baseOff s'.toks) s'.toks) (hrun : RunAt (baseOff s.toks) s.toks) :
+    ∃ ev' ev : Ev α, ingredientP s' = (some ev', { s' with cur := A'.length + ts'.length }) ∧
+      ingredientP s = (some ev, { s with cur := A.length + ts.length }) ∧ EvLoose s.cs ev' ev :=
+  bl17_ingredient_filler_loose cF c hF p' p s' s hcs hext hsp hwf hp' hp A' ts' rest' A ts rest hs' hs ht' ht hc' hc
+    hrest' hrest hrun' hrun
+
+/-- **Cookware with filler inside its body**, as `C17_ingredient_filler_in_body` -/
+theorem C17_cookware_filler_in_body {α : Type} [Arith α] (cF c : AComp) (hF : CompFiller cF c) (p' p : CPad) (s' s : BP α)
+    (hcs : s'.cs = s.cs) (hext : s'.ext = s.ext) (hsp : s.cs.uws ' ' = true)
+    (hwf : c.wfCookware s.cs s.ext = true) (hp' : p'.ok s.cs = true) (hp : p.ok s.cs = true)
+    (A' ts' rest' A ts rest : List Tok) (hs' : Spells ts' (spellCookware cF p')) (hs : Spells ts (spellCookware c p))
+    (ht' : s'.toks = A' ++ (ts' ++ rest')) (ht : s.toks = A ++ (ts ++ rest))
+    (hc' : s'.cur = A'.length) (hc : s.cur = A.length) (hrest' : restOK c rest' = true) (hrest : restOK c rest = true)
+    (hrun' : RunAt (baseOff s'.toks) s'.toks) (hrun : RunAt (baseOff s.toks) s.toks) :
+    ∃ ev' ev : Ev α, cookwareP s' = (some ev', { s' with cur := A'.length + ts'.length }) ∧
+      cookwareP s = (some ev, { s with cur := A.length + ts.length }) ∧ EvLoose s.cs ev' ev :=
+  bl17_cookware_filler_loose cF c hF p' p s' s hcs hext hsp hwf hp' hp A' ts' rest' A ts rest hs' hs ht' ht hc' hc
+    hrest' hrest hrun' hrun
+
+/-- **Timer with filler inside its name / the unit of its quantity**, as above -/
+theorem C17_timer_filler_in_body {α : Type} [Arith α] (cF c : ATimer) (hF : TimerFiller cF c) (p' p : CPad) (s' s : BP α)
+    (hcs : s'.cs = s.cs) (hext : s'.ext = s.ext) (hsp : s.cs.uws ' ' = true)
+    (hwf : c.wf s.cs s.ext = true) (hp' : p'.ok s.cs = true) (hp : p.ok s.cs = true)
+    (A' ts' rest' A ts rest : List Tok) (hs' : Spells ts' (spellTimer cF p')) (hs : Spells ts (spellTimer c p))
+    (ht' : s'.toks = A' ++ (ts' ++ rest')) (ht : s.toks = A ++ (ts ++ rest))
+    (hc' : s'.cur = A'.length) (hc : s.cur = A.length) (hrest' : noParenNext rest' = true) (hrest : noParenNext rest = true)
+    (hrun' : RunAt (baseOff s'.toks) s'.toks) (hrun : RunAt (baseOff s.toks) s.toks) :
+    ∃ ev' ev : Ev α, timerP s' = (some ev', { s' with cur := A'.length + ts'.length }) ∧
+      timerP s = (some ev, { s with cur := A.length + ts.length }) ∧ EvLoose s.cs ev' ev :=
+  bl17_timer_filler_loose cF c hF p' p s' s hcs hext hsp hwf hp' hp A' ts' rest' A ts rest hs' hs ht' ht hc' hc
+    hrest' hrest hrun' hrun
+
+/-- **`parse_quantity` with filler inside the unit** (`{1%big [- c -] cup}`): the same value, the same
+    lock, the unit with the same `text_trimmed()`, no diagnostic, the outer parser untouched — under
+    both settings of ADVANCED_UNITS (the advanced form declines at once: a `%` is present). -/
+theorem C17_parse_quantity_filler_in_unit {α : Type} [Arith α] (qF q : AQty) (hF : QtyFiller qF q) (p : QPad) (outer : BP α)
+    (hsp : outer.cs.uws ' ' = true) (hq : q.ok outer.cs = true) (hp : p.ok outer.cs = true)
+    (hr : q.val.isRange = true → outer.ext.has Gen.EXT_RANGE_VALUES = true)
+    (hadv : outer.ext.has Gen.EXT_ADVANCED_UNITS = true → q.advSafe = true)
+    (ts : List Tok) (hs : Spells ts (spellQty qF p)) (hrun : RunAt (baseOff ts) ts) :
+    ∃ vspan lspan unitT sep,
+      parseQuantity ts outer = (⟨⟨⟨⟨⟨q.val.denote, vspan⟩, lspan⟩, unitT⟩, tokensSpan ts⟩, sep⟩, outer) ∧
+      lspan.isSome = q.lock ∧ unitT.map (fun t => t.trimmed outer.cs) = q.unit.map leafText ∧
+      sep.isSome = q.unit.isSome :=
+  bl17_parseQuantity qF q hF p outer hsp hq hp hr hadv ts hs hrun
+
+/-- **How an insertion changes a `>` paragraph** (finding O3 made precise).  `ParaIns ws lines' lines`:
+    filler tokens inserted in the body of one line of the paragraph, what they show being white space
+    that touches white space or the end of the paragraph.  Then the text of the paragraph (what the
+    recipe holds as `Content::Text`) is `A ++ S ++ B` against `A ++ B` with `S` white space next to
+    white space or at the end: ONLY blanks are gained, and the two texts have the same words
+    (`trailWords` = `split_whitespace`), i.e. they are equal after collapsing runs of white space and
+    trimming.  `LooseContent` (hence `LooseSection`, `SameRecipe`) now compares paragraphs in exactly
+    this way; before this wave it demanded equal paragraphs, which the three edits falsify. -/
+theorem C17_paragraph_insertion_text (ws : Char → Bool) (lines' lines : List PLine) (h : ParaIns ws lines' lines) :
+    ∃ A S B, lines'.flatMap PLine.text = A ++ S ++ B ∧ lines.flatMap PLine.text = A ++ B ∧
+      (∀ c ∈ S, ws c = true) ∧ BlankAdj ws A B ∧
+      trailWords ws (lines'.flatMap PLine.text) = trailWords ws (lines.flatMap PLine.text) :=
+  trail_paraIns_text ws h
+
+/-- a trailing comment / trailing blanks on a line of a paragraph is such an insertion … -/
+theorem C17_paragraph_trailing_is_insertion (ws : Char → Bool) (hsp : ws ' ' = true) (L1 L2 : List PLine) (l : PLine)
+    (F : List Tok) (hF : IsFiller F) (hb : ∀ t ∈ F, t.kind = .ws → ∀ c ∈ t.text, c = ' ')
+    (hl : (l.nl = [] ∧ L2 = []) ∨ ∃ nl r, l.nl = nl :: r ∧ nl.kind = .newline ∧ nl.text ≠ [])
+    (hne : (L1 ++ l :: L2).flatMap PLine.text ≠ []) :
+    ParaIns ws (L1 ++ { l with body := l.body ++ F } :: L2) (L1 ++ l :: L2) :=
+  bl17_paraIns_trailing ws hsp L1 L2 l F hF hb hl hne
+
+/-- … and so is a block comment (with its blank) behind a blank of the line -/
+theorem C17_paragraph_block_comment_is_insertion (ws : Char → Bool) (hsp : ws ' ' = true) (L1 L2 : List PLine)
+    (l : PLine) (b1 : List Tok) (w : Tok) (F b2 : List Tok) (hbody : l.body = (b1 ++ [w]) ++ b2)
+    (hw : w.kind = .ws) (hwt : w.text ≠ []) (hwb : ∀ c ∈ w.text, c = ' ')
+    (hF : IsFiller F) (hb : ∀ t ∈ F, t.kind = .ws → ∀ c ∈ t.text, c = ' ')
+    (hne : (L1 ++ l :: L2).flatMap PLine.text ≠ []) :
+    ParaIns ws (L1 ++ { l with body := (b1 ++ [w]) ++ F ++ b2 } :: L2) (L1 ++ l :: L2) :=
+  bl17_paraIns_blockComment ws hsp L1 L2 l b1 w F b2 hbody hw hwt hwb hF hb hne
+
+/-- one paragraph of a document changed: the documents are related by `ItemIns` (which the insertion
+    theorems `C17_insertion_recipe_wellformed_partial` / `C17_insertion_same_recipe` quantify over — they
+    now cover insertions in `>` paragraphs as well) -/
+theorem C17_insertion_in_one_paragraph (ws : Char → Bool) (D1 D2 : List DocItem) (lines' lines : List PLine)
+    (h : ParaIns ws lines' lines) : LRel (ItemIns ws) (D1 ++ .para lines' :: D2) (D1 ++ .para lines :: D2) :=
+  bl17_itemIns_para ws D1 D2 lines' lines h
+
+/-- **`servings` under insertion.**  The two recipes of the insertion theorem have the same
+    `servings` (the value the analysis derives from a `>> servings: …` entry); `SameCol` / `SameRecipe`
+    now state it (it was missing: `ColSim` had it, the insertion theorem did not). -/
+theorem C17_insertion_servings {α : Type} [Arith α] (env : Env) (ws : Char → Bool) (pre' pre : List Tok)
+    (doc' doc : List (DocItem × List Tok)) (h' : DocWF α env pre' doc') (h : DocWF α env pre doc)
+    (hins : LRel (ItemIns ws) (doc'.map (·.1)) (doc.map (·.1))) (c' c : Col α)
+    (hc' : (parseRecipe (α := α) env (render (pre' ++ docSpec doc'))).output = some c')
+    (hc : (parseRecipe (α := α) env (render (pre ++ docSpec doc))).output = some c) : c'.servings = c.servings :=
+  bl17_insertion_servings env ws pre' pre doc' doc h' h hins c' c hc' hc
+
+/-- `SameRecipe` states the servings -/
+theorem C17_same_recipe_servings {α : Type} [Arith α] (ws : Char → Bool) (r' r : AnalysisResult α) (h : SameRecipe ws r' r)
+    (c' c : Col α) (hc' : r'.output = some c') (hc : r.output = some c) : c'.servings = c.servings := by
+  have := h.output
+  rw [hc', hc] at this
+  exact this.servings
+
+/-- **The front matter of a source of the shape `blank lines, fence, YAML lines, fence, X`**
+    (`StrLine`: a complete line; a fence: `---` after `trim_end`; the YAML lines are not fences):
+    `parse_frontmatter` returns the YAML lines as YAML text and `X` as recipe text, whatever `X` is. -/
+theorem C17_frontmatter_shape (cs : CharSpec) (B Y : List (List Char)) (f1 f2 X : List Char)
+    (hB : ∀ l ∈ B, StrLine l ∧ (trim cs.uws l).isEmpty = true)
+    (hf1 : StrLine f1 ∧ isFence cs f1 = true) (hY : ∀ l ∈ Y, StrLine l ∧ isFence cs l = false)
+    (hf2 : StrLine f2 ∧ isFence cs f2 = true) :
+    parseFrontmatter cs (B.flatten ++ (f1 ++ (Y.flatten ++ (f2 ++ X)))) =
+      some ⟨Y.flatten, utf8Len B.flatten + utf8Len f1, X,
+        utf8Len B.flatten + utf8Len f1 + utf8Len Y.flatten + utf8Len f2⟩ :=
+  bl17_frontmatter_intro cs B Y f1 f2 X hB hf1 hY hf2
+
+/-- **A further blank line in front of the front matter: the same events** (clause 5 with front
+    matter, first half).  `e` is a complete line that is blank under `str::trim`.  Every event of the
+    `PullParser` run is related to its counterpart by `EvSim` (the front-matter event carries the
+    same YAML text, all spans shift by the length of `e`). -/
+theorem C17_blank_line_before_frontmatter_events {α : Type} [Arith α] (cs : CharSpec) (hu : UwsNL cs) (ext : Ext)
+    (e : List Char) (B Y : List (List Char)) (f1 f2 X : List Char)
+    (he : StrLine e ∧ (trim cs.uws e).isEmpty = true)
+    (hB : ∀ l ∈ B, StrLine l ∧ (trim cs.uws l).isEmpty = true)
+    (hf1 : StrLine f1 ∧ isFence cs f1 = true) (hY : ∀ l ∈ Y, StrLine l ∧ isFence cs l = false)
+    (hf2 : StrLine f2 ∧ isFence cs f2 = true) :
+    LRel (EvSim cs.uws)
+      (pullEvents (α := α) cs ext (e ++ (B.flatten ++ (f1 ++ (Y.flatten ++ (f2 ++ X)))))).1.toList
+      (pullEvents (α := α) cs ext (B.flatten ++ (f1 ++ (Y.flatten ++ (f2 ++ X))))).1.toList :=
+  bl17_blank_before_front_events cs hu ext e B Y f1 f2 X he hB hf1 hY hf2
+
+/-- **A blank or comment-only line directly behind the closing fence: the same events** (second
+    half).  `e` is any source line that lexes to an empty line there (blanks, tabs, `-- comment`,
+    `[- block comment -]`). -/
+theorem C17_line_after_frontmatter_events {α : Type} [Arith α] (cs : CharSpec) (hu : UwsNL cs) (ext : Ext)
+    (e : List Char) (B Y : List (List Char)) (f1 f2 X : List Char)
+    (hB : ∀ l ∈ B, StrLine l ∧ (trim cs.uws l).isEmpty = true)
+    (hf1 : StrLine f1 ∧ isFence cs f1 = true) (hY : ∀ l ∈ Y, StrLine l ∧ isFence cs l = false)
+    (hf2 : StrLine f2 ∧ isFence cs f2 = true)
+    (hE : EmptyLine (lexFrom cs (utf8Len B.flatten + utf8Len f1 + utf8Len Y.flatten + utf8Len f2) e)) :
+    LRel (EvSim cs.uws)
+      (pullEvents (α := α) cs ext (B.flatten ++ (f1 ++ (Y.flatten ++ (f2 ++ (e ++ X)))))).1.toList
+      (pullEvents (α := α) cs ext (B.flatten ++ (f1 ++ (Y.flatten ++ (f2 ++ X))))).1.toList :=
+  bl17_line_after_front_events cs hu ext e B Y f1 f2 X hB hf1 hY hf2 hE
+
+/-- … and the same recipe, MODES off -/
+theorem C17_blank_line_before_frontmatter_same_recipe_modes_off {α : Type} [Arith α] (ws : Char → Bool) (env : Env)
+    (hu : UwsNL env.cs) (hm : env.ext.has Gen.EXT_MODES = false) (e : List Char) (B Y : List (List Char)) (f1 f2 X : List Char)
+    (he : StrLine e ∧ (trim env.cs.uws e).isEmpty = true)
+    (hB : ∀ l ∈ B, StrLine l ∧ (trim env.cs.uws l).isEmpty = true)
+    (hf1 : StrLine f1 ∧ isFence env.cs f1 = true) (hY : ∀ l ∈ Y, StrLine l ∧ isFence env.cs l = false)
+    (hf2 : StrLine f2 ∧ isFence env.cs f2 = true) :
+    SameRecipe ws (parseRecipe (α := α) env (e ++ (B.flatten ++ (f1 ++ (Y.flatten ++ (f2 ++ X))))))
+      (parseRecipe (α := α) env (B.flatten ++ (f1 ++ (Y.flatten ++ (f2 ++ X))))) :=
+  a17_resSim_same ws (bl17_blank_before_front_recipe env hu e B Y f1 f2 X he hB hf1 hY hf2 (pullEvents_textModeFree env hm _))
+
+theorem C17_line_after_frontmatter_same_recipe_modes_off {α : Type} [Arith α] (ws : Char → Bool) (env : Env)
+    (hu : UwsNL env.cs) (hm : env.ext.has Gen.EXT_MODES = false) (e : List Char) (B Y : List (List Char)) (f1 f2 X : List Char)
+    (hB : ∀ l ∈ B, StrLine l ∧ (trim env.cs.uws l).isEmpty = true)
+    (hf1 : StrLine f1 ∧ isFence env.cs f1 = true) (hY : ∀ l ∈ Y, StrLine l ∧ isFence env.cs l = false)
+    (hf2 : StrLine f2 ∧ isFence env.cs f2 = true)
+    (hE : EmptyLine (lexFrom env.cs (utf8Len B.flatten + utf8Len f1 + utf8Len Y.flatten + utf8Len f2) e)) :
+    SameRecipe ws (parseRecipe (α := α) env (B.flatten ++ (f1 ++ (Y.flatten ++ (f2 ++ (e ++ X))))))
+      (parseRecipe (α := α) env (B.flatten ++ (f1 ++ (Y.flatten ++ (f2 ++ X))))) :=
+  a17_resSim_same ws (bl17_line_after_front_recipe env hu e B Y f1 f2 X hB hf1 hY hf2 hE (pullEvents_textModeFree env hm _))
+
+/-! non-vacuity of wave 5 -/
+
+/-- `olive␣[- c -]␣oil` against `olive␣oil`: three fragments against one, `TextLoose` all the same -/
+example : TextLoose toyCharSpec
+    (buildText 1 ([⟨.word, "olive".toList, 1⟩] ++ [⟨.ws, [' '], 6⟩] ++
+      [⟨.blockComment, "[- c -]".toList, 7⟩, ⟨.ws, [' '], 14⟩] ++ [⟨.word, "oil".toList, 15⟩]))
+    (buildText 1 ([⟨.word, "olive".toList, 1⟩] ++ [⟨.ws, [' '], 6⟩] ++ [⟨.word, "oil".toList, 7⟩])) :=
+  C17_filler_after_blank_loose toyCharSpec (by decide) 1 1 _ _ _ _ rfl (by decide) (by decide) (by
+    intro t ht
+    simp only [List.mem_cons, List.not_mem_nil, or_false] at ht
+    rcases ht with rfl | rfl
+    · exact Or.inl (Or.inl rfl)
+    · exact Or.inr ⟨rfl, by decide⟩)
+example : (buildText 1 ([⟨.word, "olive".toList, 1⟩] ++ [⟨.ws, [' '], 6⟩] ++
+      [⟨.blockComment, "[- c -]".toList, 7⟩, ⟨.ws, [' '], 14⟩] ++ [⟨.word, "oil".toList, 15⟩])).frags.length = 2 ∧
+    (buildText 1 ([⟨.word, "olive".toList, 1⟩] ++ [⟨.ws, [' '], 6⟩] ++ [⟨.word, "oil".toList, 7⟩])).frags.length = 1 := by
+  decide
+
+/-- the components `@olive [- c -] oil{1%big [- c -] cup}(very [- c -] fine)` and
+    `@olive oil{1%big cup}(very fine)` of the grammar -/
+def C17_exFillerTok : List Tok := [tk .blockComment "[- c -]".toList, tk .ws [' ']]
+def C17_exCompF : AComp :=
+  { name := [tk .word "olive".toList] ++ tk .ws [' '] :: (C17_exFillerTok ++ [tk .word "oil".toList]),
+    qty := some { val := .num (.int ['1']),
+                  unit := some ([tk .word "big".toList] ++ tk .ws [' '] :: (C17_exFillerTok ++ [tk .word "cup".toList])) },
+    note := some ([tk .word "very".toList] ++ tk .ws [' '] :: (C17_exFillerTok ++ [tk .word "fine".toList])) }
+def C17_exComp : AComp :=
+  { name := [tk .word "olive".toList] ++ tk .ws [' '] :: [tk .word "oil".toList],
+    qty := some { val := .num (.int ['1']), unit := some ([tk .word "big".toList] ++ tk .ws [' '] :: [tk .word "cup".toList]) },
+    note := some ([tk .word "very".toList] ++ tk .ws [' '] :: [tk .word "fine".toList]) }
+
+theorem C17_exFiller_pad : ∀ t ∈ C17_exFillerTok, bl17Pad t := by
+  intro t ht
+  simp only [C17_exFillerTok, List.mem_cons, List.not_mem_nil, or_false] at ht
+  rcases ht with rfl | rfl
+  · exact Or.inl rfl
+  · exact Or.inr ⟨rfl, by decide⟩
+
+theorem C17_exCompFiller : CompFiller C17_exCompF C17_exComp :=
+  ⟨rfl, FillerIn.ins _ _ _ _ (by simp) rfl C17_exFiller_pad, trivial,
+   FillerIn.ins _ _ _ _ (by simp) rfl C17_exFiller_pad,
+   ⟨rfl, rfl, FillerIn.ins _ _ _ _ (by simp) rfl C17_exFiller_pad⟩⟩
+
+example : C17_exComp.wf toyCharSpec ⟨0⟩ = true ∧ (({} : CPad).ok toyCharSpec) = true ∧
+    render (spellIngredient C17_exCompF {}) = "@olive [- c -] oil{1%big [- c -] cup}(very [- c -] fine)".toList ∧
+    render (spellIngredient C17_exComp {}) = "@olive oil{1%big cup}(very fine)".toList ∧
+    WellSpelled toyCharSpec (spellIngredient C17_exCompF {}) ∧ WellSpelled toyCharSpec (spellIngredient C17_exComp {}) := by
+  decide
+
+/-- the hypotheses of `C17_ingredient_filler_in_body` hold for the two sources lexed by the model's
+    lexer, and the two events are related -/
+example : ∃ ev' ev : Ev Rat,
+    (ingredientP (⟨lex toyCharSpec (render (spellIngredient C17_exCompF {})), 0, ⟨0⟩, toyCharSpec, #[], none⟩ : BP Rat)).1 = some ev' ∧
+    (ingredientP (⟨lex toyCharSpec (render (spellIngredient C17_exComp {})), 0, ⟨0⟩, toyCharSpec, #[], none⟩ : BP Rat)).1 = some ev ∧
+    EvLoose toyCharSpec ev' ev := by
+  obtain ⟨a1, a2⟩ := rtin_lex_spells toyCharSpec 0 (spellIngredient C17_exCompF {}) (by decide)
+  obtain ⟨b1, b2⟩ := rtin_lex_spells toyCharSpec 0 (spellIngredient C17_exComp {}) (by decide)
+  obtain ⟨ev', ev, h1, h2, h3⟩ := C17_ingredient_filler_in_body (α := Rat) C17_exCompF C17_exComp C17_exCompFiller {} {}
+    ⟨lex toyCharSpec (render (spellIngredient C17_exCompF {})), 0, ⟨0⟩, toyCharSpec, #[], none⟩
+    ⟨lex toyCharSpec (render (spellIngredient C17_exComp {})), 0, ⟨0⟩, toyCharSpec, #[], none⟩
+    rfl rfl (by decide) (by decide) (by decide) (by decide) [] _ [] [] _ [] a1 b1 (by simp [lex]) (by simp [lex]) rfl rfl
+    (by decide) (by decide) a2.base b2.base
+  exact ⟨ev', ev, by rw [h1], by rw [h2], h3⟩
+
+/-- a paragraph `> some note⏎` and the same with a trailing comment: related by `ParaIns` -/
+def C17_exLine : PLine :=
+  { body := [tk .word "some".toList, tk .ws [' '], tk .word "note".toList], sp := [tk .ws [' ']], nl := [tk .newline ['\n']] }
+def C17_exLineComment : PLine :=
+  { C17_exLine with body := C17_exLine.body ++ [tk .ws [' '], tk .lineComment "-- c".toList] }
+
+example : ParaIns (fun c => c = ' ') [C17_exLineComment] [C17_exLine] :=
+  C17_paragraph_trailing_is_insertion _ (by decide) [] [] C17_exLine [tk .ws [' '], tk .lineComment "-- c".toList]
+    (by intro t ht; simp only [List.mem_cons, List.not_mem_nil, or_false] at ht; rcases ht with rfl | rfl <;> rfl)
+    (by intro t ht; simp only [List.mem_cons, List.not_mem_nil, or_false] at ht; rcases ht with rfl | rfl <;> decide)
+    (Or.inr ⟨tk .newline ['\n'], [], rfl, rfl, by decide⟩) (by decide)
+
+/-- the paragraph texts are `"some note "` + the blank of the line break against `"some note"` + that
+    blank: not equal, same words -/
+example : [C17_exLineComment].flatMap PLine.text = "some note  ".toList ∧
+    [C17_exLine].flatMap PLine.text = "some note ".toList := by decide
+
+/-- front matter `---⏎title: x⏎---⏎` with a blank line `␣␣⏎` in front, and a comment-only line behind -/
+example : StrLine "  \n".toList ∧ (trim toyCharSpec.uws "  \n".toList).isEmpty = true :=
+  ⟨⟨"  ".toList, rfl, by decide⟩, by decide⟩
+example : StrLine "---\n".toList ∧ isFence toyCharSpec "---\n".toList = true := ⟨⟨"---".toList, rfl, by decide⟩, by decide⟩
+example : StrLine "title: x\n".toList ∧ isFence toyCharSpec "title: x\n".toList = false :=
+  ⟨⟨"title: x".toList, rfl, by decide⟩, by decide⟩
+example : (parseFrontmatter toyCharSpec ("  \n---\ntitle: x\n---\nAdd @salt{}\n".toList)).map
+      (fun fm => (fm.yamlText, fm.yamlOffset, fm.cookText, fm.cookOffset)) =
+    some ("title: x\n".toList, 7, "Add @salt{}\n".toList, 20) := by decide
+example : EmptyLine (lexFrom toyCharSpec 17 "-- c\n".toList) := by
+  have : lexFrom toyCharSpec 17 "-- c\n".toList = [⟨.lineComment, "-- c".toList, 17⟩, ⟨.newline, ['\n'], 21⟩] := by
+    simp [lexFrom_cons, lexOne, singleKind, singleTable, toyCharSpec, isAsciiDigit, lexFrom, utf8Len]
+    decide
+  rw [this]
+  exact ⟨⟨[⟨.lineComment, "-- c".toList, 17⟩], ⟨.newline, ['\n'], 21⟩, rfl, by decide, rfl⟩, by decide⟩
+
+/-- **Filler inside component bodies: the same recipe — well-formed recipes** (closes clause 4b at
+    recipe level).  `doc` is a document of the round-trip grammar (`DocWF`: the conditions of
+    `C01_recipe_doc`).  `docF` is a document whose blocks are those of `doc` except that braces
+    ingredients / cookware items / timers of its steps may be spelled WITH block comments and blank
+    whitespace tokens inserted behind a blank of their name, alias, note or unit (`DocItemF`, `SegF`,
+    `CompFiller`, `TimerFiller`; `docCleanF` forgets the filler; any number of components and steps may
+    carry filler; `hclean` compares the blocks up to the blank padding of section / `>>` lines).  Hypotheses on the transformed source are the token-level ones only: its blocks have
+    the block shape, its components are followed as the grammar demands (`DocItemF.OK`), separators
+    are separators, the list is spelled as the lexer spells it, and it has no front-matter fence.
+    Statement: both sources parse to a recipe, and the recipes are the same in the sense of the
+    property (`SameRecipe`) — in fact with EQUAL sections, steps, items, text items, tables, metadata
+    map, servings (`bl17_docF_same`), no white-space allowance being needed: the filler is inside runs
+    that are read through `text_trimmed`.
+    Excluded, and false of the real code before the repair on branch w5advfix: a comment directly in
+    front of the unit of a quantity written WITHOUT `%` under ADVANCED_UNITS (finding O5). -/
+theorem C17_filler_in_component_bodies_same_recipe {α : Type} [Arith α] (ws : Char → Bool) (env : Env)
+    (hsp : env.cs.uws ' ' = true) (pre' pre : List Tok) (docF : List (DocItemF × List Tok))
+    (doc : List (DocItem × List Tok)) (h : DocWF α env pre doc)
+    (hclean : ((docCleanF docF).map (·.1)).map DocItem.core = (doc.map (·.1)).map DocItem.core)
+    (hpre' : blankLinesOK pre' = true) (hok : ∀ d ∈ docF, d.1.OK env.cs env.ext)
+    (hseps : sepsOK (docF.map (·.2)) = true) (hw : WellSpelled env.cs (pre' ++ docSpecF docF))
+    (hfm : parseFrontmatter env.cs (render (pre' ++ docSpecF docF)) = none) :
+    SameRecipe ws (parseRecipe (α := α) env (render (pre' ++ docSpecF docF)))
+      (parseRecipe (α := α) env (render (pre ++ docSpec doc))) := by
+  have hF : DocWFF α env pre' docF := DocWFF.of_clean env pre' pre docF doc h hclean hpre' hok hseps hw hfm
+  obtain ⟨c', c, e', e, hs, hi, hc, ht, hm, hq, hf, hv, hd⟩ := bl17_docF_same (α := α) env hsp pre' pre docF doc hF h hclean
+  rw [e', e]
+  refine ⟨?_, hd⟩
+  show SameCol ws c' c
+  exact ⟨by rw [hs]; exact LRel.refl_of (LooseSection.refl ws) _, hi, hc, ht, hq, hm,
+    by rw [hf]; exact OptRel.refl_of (A := A17FmSame) (fun _ => rfl) _, hv⟩
+
+/-- **Trailing line comment on a section line or a `>>` line: the same recipe** (recipe level,
+    well-formed recipes).  It is the theorem above: a block of `docF` may also be a section line or a
+    `>>` line of the grammar with a line-comment token behind it (`DocItemF.sectionLC`, `.metaLC`: `= name
+    -- c`, `= name = -- c`, `>> key: value -- c`; the blanks in front of the comment are the padding of the
+    line, and `hclean` compares blocks up to that padding, `DocItem.core`).  The comment ends the name
+    run / follows the closing `=`s / ends the value run; there it shows nothing, and the name is read
+    through `text_trimmed`, the value through the outer `trim`. -/
+theorem C17_trailing_comment_on_single_line_blocks_same_recipe {α : Type} [Arith α] (ws : Char → Bool) (env : Env)
+    (hsp : env.cs.uws ' ' = true) (pre' pre : List Tok) (docF : List (DocItemF × List Tok))
+    (doc : List (DocItem × List Tok)) (h : DocWF α env pre doc)
+    (hclean : ((docCleanF docF).map (·.1)).map DocItem.core = (doc.map (·.1)).map DocItem.core)
+    (hpre' : blankLinesOK pre' = true) (hok : ∀ d ∈ docF, d.1.OK env.cs env.ext)
+    (hseps : sepsOK (docF.map (·.2)) = true) (hw : WellSpelled env.cs (pre' ++ docSpecF docF))
+    (hfm : parseFrontmatter env.cs (render (pre' ++ docSpecF docF)) = none) :
+    SameRecipe ws (parseRecipe (α := α) env (render (pre' ++ docSpecF docF)))
+      (parseRecipe (α := α) env (render (pre ++ docSpec doc))) :=
+  C17_filler_in_component_bodies_same_recipe ws env hsp pre' pre docF doc h hclean hpre' hok hseps hw hfm
+
+/-! non-vacuity: `Add @olive [- c -] oil{1%big [- c -] cup}(very [- c -] fine) now⏎` against
+    `Add @olive oil{1%big cup}(very fine) now⏎` -/
+def C17_exDocCompF : List (DocItemF × List Tok) :=
+  [(.stepF [.x (.text [tk .word "Add".toList, tk .ws [' ']]), .ingredient C17_exCompF C17_exComp {},
+            .x (.text [tk .ws [' '], tk .word "now".toList])], [tk .newline ['\n']])]
+def C17_exDocComp : List (DocItem × List Tok) :=
+  [(.step [.text [tk .word "Add".toList, tk .ws [' ']], .ingredient C17_exComp {},
+           .text [tk .ws [' '], tk .word "now".toList]], [tk .newline ['\n']])]
+
+example : render ([] ++ docSpecF C17_exDocCompF) = "Add @olive [- c -] oil{1%big [- c -] cup}(very [- c -] fine) now\n".toList ∧
+    render ([] ++ docSpec C17_exDocComp) = "Add @olive oil{1%big cup}(very fine) now\n".toList := by decide
+
+theorem C17_exDocComp_wf : DocWF Rat C17_toyEnv [] C17_exDocComp := by
+  have h1 : (∀ d ∈ C17_exDocComp, d.1.ok C17_toyEnv.cs C17_toyEnv.ext = true) ∧ (∀ d ∈ C17_exDocComp, d.1.simple = true) ∧
+      sepsOK (C17_exDocComp.map (·.2)) = true ∧ WellSpelled C17_toyEnv.cs ([] ++ docSpec C17_exDocComp) ∧
+      (parseFrontmatter C17_toyEnv.cs (render ([] ++ docSpec C17_exDocComp))).isNone = true := by decide
+  obtain ⟨a, b, c, d, e⟩ := h1
+  refine ⟨by decide, a, b, ?_, ?_, c, d, by simpa using e⟩
+  · intro x hx
+    simp only [C17_exDocComp, List.mem_cons, List.not_mem_nil, or_false] at hx
+    subst hx; trivial
+  · intro x hx
+    simp only [C17_exDocComp, List.mem_cons, List.not_mem_nil, or_false] at hx
+    subst hx
+    intro sg hsg
+    simp only [List.mem_cons, List.not_mem_nil, or_false] at hsg
+    rcases hsg with rfl | rfl | rfl
+    · intro hh; exact absurd hh (by decide)
+    · trivial
+    · intro hh; exact absurd hh (by decide)
+
+example : SameRecipe (α := Rat) (fun c => c = ' ')
+    (parseRecipe C17_toyEnv (render ([] ++ docSpecF C17_exDocCompF)))
+    (parseRecipe C17_toyEnv (render ([] ++ docSpec C17_exDocComp))) :=
+  C17_filler_in_component_bodies_same_recipe _ C17_toyEnv (by decide) [] [] C17_exDocCompF C17_exDocComp C17_exDocComp_wf rfl
+    (by decide)
+    (by
+      intro d hd
+      simp only [C17_exDocCompF, List.mem_cons, List.not_mem_nil, or_false] at hd
+      subst hd
+      refine ⟨⟨show SegX.ok _ _ _ = true by decide, by decide, ⟨C17_exCompFiller, by decide, by decide⟩, by decide,
+        show SegX.ok _ _ _ = true by decide, by decide, trivial⟩, by decide, by decide⟩)
+    (by decide) (by decide)
+    (by
+      have : (parseFrontmatter C17_toyEnv.cs (render ([] ++ docSpecF C17_exDocCompF))).isNone = true := by decide
+      simpa using this)
+
+/-! a trailing comment on a LAST line WITHOUT line feed, recipe level: the grammar of the insertion
+    theorem allows an empty last separator (`tailOK []`), so `C17_insertion_same_recipe` covers
+    `Mix well` against `Mix well -- c` (no line feed at the end of either source) -/
+def C17_exDocNoLF : List (DocItem × List Tok) :=
+  [(.step [.text [tk .word "Mix".toList, tk .ws [' '], tk .word "well".toList]], [])]
+def C17_exDocNoLFComment : List (DocItem × List Tok) :=
+  [(.step [.text ([tk .word "Mix".toList, tk .ws [' '], tk .word "well".toList] ++
+      [tk .ws [' '], tk .lineComment "-- c".toList] ++ [])], [])]
+example : render ([] ++ docSpec C17_exDocNoLFComment) = "Mix well -- c".toList ∧
+    render ([] ++ docSpec C17_exDocNoLF) = "Mix well".toList := by decide
+example : SameRecipe (α := Rat) (fun c => c = ' ')
+    (parseRecipe C17_toyEnv (render ([] ++ docSpec C17_exDocNoLFComment)))
+    (parseRecipe C17_toyEnv (render ([] ++ docSpec C17_exDocNoLF))) :=
+  C17_insertion_same_recipe C17_toyEnv _ [] [] _ _
+    (C17_exDocWF _ (by decide) (by intro d hd; simp only [C17_exDocNoLFComment, List.mem_cons, List.not_mem_nil, or_false] at hd; subst hd; exact ⟨_, rfl⟩))
+    (C17_exDocWF _ (by decide) (by intro d hd; simp only [C17_exDocNoLF, List.mem_cons, List.not_mem_nil, or_false] at hd; subst hd; exact ⟨_, rfl⟩))
+    (C17_insertion_in_one_step _ [] [] _ _
+      (C17_trailing_is_insertion _ (by decide) [] [] _ [tk .ws [' '], tk .lineComment "-- c".toList] []
+        (by intro t ht; simp only [List.mem_cons, List.not_mem_nil, or_false] at ht; rcases ht with rfl | rfl <;> rfl)
+        (by intro t ht; simp only [List.mem_cons, List.not_mem_nil, or_false] at ht; rcases ht with rfl | rfl <;> decide)
+        (Or.inl rfl) (by intro s hs; cases hs)))
+
+/-! non-vacuity: `= sec -- c⏎⏎>> k: v -- c⏎⏎Mix well⏎` against `= sec⏎⏎>> k: v⏎⏎Mix well⏎` -/
+def C17_exDocLC : List (DocItemF × List Tok) :=
+  [(.sectionLC (some [tk .word "sec".toList]) { n0 := 0, a := [tk .ws [' ']], b := [tk .ws [' ']] } (tk .lineComment "-- c".toList),
+      [tk .newline ['\n'], tk .newline ['\n']]),
+   (.metaLC [tk .word "k".toList] [tk .word "v".toList] { a := [tk .ws [' ']], c := [tk .ws [' ']], d := [tk .ws [' ']] }
+      (tk .lineComment "-- c".toList), [tk .newline ['\n'], tk .newline ['\n']]),
+   (.other (.step [.text [tk .word "Mix".toList, tk .ws [' '], tk .word "well".toList]]), [tk .newline ['\n']])]
+def C17_exDocLCClean : List (DocItem × List Tok) :=
+  [(.sectionLine (some [tk .word "sec".toList]) { n0 := 0, a := [tk .ws [' ']] }, [tk .newline ['\n'], tk .newline ['\n']]),
+   (.metaLine [tk .word "k".toList] [tk .word "v".toList] { a := [tk .ws [' ']], c := [tk .ws [' ']] },
+      [tk .newline ['\n'], tk .newline ['\n']]),
+   (.step [.text [tk .word "Mix".toList, tk .ws [' '], tk .word "well".toList]], [tk .newline ['\n']])]
+
+example : render ([] ++ docSpecF C17_exDocLC) = "= sec -- c\n\n>> k: v -- c\n\nMix well\n".toList ∧
+    render ([] ++ docSpec C17_exDocLCClean) = "= sec\n\n>> k: v\n\nMix well\n".toList := by decide
+
+theorem C17_exDocLCClean_wf : DocWF Rat C17_toyEnv [] C17_exDocLCClean := by
+  have h1 : (∀ d ∈ C17_exDocLCClean, d.1.ok C17_toyEnv.cs C17_toyEnv.ext = true) ∧ (∀ d ∈ C17_exDocLCClean, d.1.simple = true) ∧
+      sepsOK (C17_exDocLCClean.map (·.2)) = true ∧ WellSpelled C17_toyEnv.cs ([] ++ docSpec C17_exDocLCClean) ∧
+      (parseFrontmatter C17_toyEnv.cs (render ([] ++ docSpec C17_exDocLCClean))).isNone = true := by decide
+  obtain ⟨a, b, c, d, e⟩ := h1
+  refine ⟨by decide, a, b, ?_, ?_, c, d, by simpa using e⟩
+  · intro x hx
+    simp only [C17_exDocLCClean, List.mem_cons, List.not_mem_nil, or_false] at hx
+    rcases hx with rfl | rfl | rfl
+    · trivial
+    · refine ⟨?_, ?_⟩
+      · intro hh; exact absurd hh.1 (by decide)
+      · intro sk hsk
+        have : StdKey.ofStr (String.ofList (leafText [tk .word "k".toList])) = none := by decide
+        rw [this] at hsk; cases hsk
+    · trivial
+  · intro x hx
+    simp only [C17_exDocLCClean, List.mem_cons, List.not_mem_nil, or_false] at hx
+    rcases hx with rfl | rfl | rfl
+    · trivial
+    · trivial
+    · intro sg hsg
+      simp only [List.mem_cons, List.not_mem_nil, or_false] at hsg
+      subst hsg
+      intro hh; exact absurd hh (by decide)
+
+example : SameRecipe (α := Rat) (fun c => c = ' ')
+    (parseRecipe C17_toyEnv (render ([] ++ docSpecF C17_exDocLC)))
+    (parseRecipe C17_toyEnv (render ([] ++ docSpec C17_exDocLCClean))) :=
+  C17_trailing_comment_on_single_line_blocks_same_recipe _ C17_toyEnv (by decide) [] [] C17_exDocLC C17_exDocLCClean
+    C17_exDocLCClean_wf rfl (by decide)
+    (by
+      intro d hd
+      simp only [C17_exDocLC, List.mem_cons, List.not_mem_nil, or_false] at hd
+      rcases hd with rfl | rfl | rfl
+      · exact ⟨by decide, rfl⟩
+      · exact ⟨by decide, rfl⟩
+      · show DocItem.ok _ _ _ = true
+        decide)
+    (by decide) (by decide)
+    (by
+      have : (parseFrontmatter C17_toyEnv.cs (render ([] ++ docSpecF C17_exDocLC))).isNone = true := by decide
+      simpa using this)
+-- ===== end w5c17body =====
 
 end Cook
